@@ -46,7 +46,7 @@ TRUSTED = ['CPython 3.12 str/list subscripting as modelled in coq/lib/C04_PySlic
            'FeatureList.get (sugar/core/fts.py, outside the anchored file) is modelled as ft_get for str arguments only']
 ASSUMPTIONS = ['Python str restricted to ASCII code points (str.upper modelled on ASCII); lengths below 2^63',
                'metadata other than the id is not modelled (slices share the parent meta object)',
-               'gap-aware slicing claimed for contiguous slices (step None or 1) only']
+               'gap-aware slicing claimed equal to the degapped slice for contiguous slices (step None or 1) only; other steps are modelled as the code is']
 
 MODELLED_FUNCS = {'sugar/core/seq.py': [
     '_Sliceable_GetItem.__getitem__',
@@ -147,6 +147,8 @@ def model_term(case):
         t = 'OStore %s %s' % (coq_strs(c['ss']), coq_list([coq_dstep(h) for h in c['steps']]))
     elif op == 'strbox':
         t = 'OStrBox %s %s %s' % (coq_bs(c['d']), coq_bs(c['t']), coq_zs(c['bounds']))
+    elif op == 'strq':
+        t = 'OStrQ %s %s %s' % (coq_bs(c['d']), coq_list([coq_query(q) for q in c['qs']]), coq_list([coq_edit(e) for e in c['es']]))
     elif op == 'ft':
         t = 'OFt %s %s %s %s' % (coq_bs(c['s']), coq_gap(c['gap']), coq_fts(c['fts']), coq_bs(c['name']))
     elif op == 'bft':
@@ -281,6 +283,10 @@ def coq_edit(e):
         return '(%s %s %s)' % ({'center': 'ECenter', 'ljust': 'ELjust', 'rjust': 'ERjust'}[k], coq_z(e['w']), coq_opt(e['f'], coq_byte))
     if k in ('strip', 'lstrip', 'rstrip'):
         return '(%s %s)' % ({'strip': 'EStrip', 'lstrip': 'ELstrip', 'rstrip': 'ERstrip'}[k], coq_gap(e['cs']))
+    if k in ('removeprefix', 'removesuffix'):
+        return '(%s %s)' % ({'removeprefix': 'ERemoveprefix', 'removesuffix': 'ERemovesuffix'}[k], coq_bs(e['p']))
+    if k == 'transmk':
+        return '(ETransMk %s %s %s)' % (coq_bs(e['x']), coq_bs(e['y']), coq_bs(e['z'] or ''))
     return {'reverse': 'EReverse', 'lower': 'ELower', 'upper': 'EUpper', 'swapcase': 'ESwapcase'}[k]
 
 
@@ -294,7 +300,15 @@ def coq_query(q):
         return '(QEq %s)' % coq_bs(q['t'])
     if k in QSEARCH:
         return '(%s %s %s %s)' % (QSEARCH[k], coq_bs(q['t']), coq_optz(q['a']), coq_optz(q['b']))
-    return {'len': 'QLen', 'isupper': 'QIsupper', 'islower': 'QIslower', 'gc': 'QGc', 'countall': 'QCountall'}[k]
+    if k in ('split', 'rsplit'):
+        return '(%s %s %s)' % ({'split': 'QSplit', 'rsplit': 'QRsplit'}[k], coq_gap(q['sep']), coq_optz(q['ms']))
+    if k == 'splitlines':
+        return '(QSplitlines %s)' % coq_bool(bool(q['keep']))
+    if k in ('startswithany', 'endswithany'):
+        return '(%s %s %s %s)' % ({'startswithany': 'QStartswithAny', 'endswithany': 'QEndswithAny'}[k], coq_strs(q['ps']),
+                                  coq_optz(q['a']), coq_optz(q['b']))
+    return {'len': 'QLen', 'isupper': 'QIsupper', 'islower': 'QIslower', 'gc': 'QGc', 'countall': 'QCountall',
+            'isalpha': 'QIsalpha', 'isascii': 'QIsascii', 'encode': 'QEncode'}[k]
 
 
 DUPS = ('copy', 'deepcopy', 'method', 'pickle', 'basket')
@@ -313,6 +327,8 @@ def coq_dstep(h):
         return '(DEqObj %s %s)' % (coq_handle(h['o']), coq_handle(h['j']))
     if k == 'alledit':
         return '(DAllEdit %s)' % coq_edit(h['e'])
+    if k in ('slice', 'slicein'):
+        return '(%s %s %s %s)' % ({'slice': 'DSlice', 'slicein': 'DSliceIn'}[k], coq_handle(h['o']), coq_gap(h['gap']), coq_ix(h['ix']))
     return {'countall': 'DCountall'}[k]
 
 
@@ -391,6 +407,21 @@ def impl(case):
                 for a in case['bounds']] for name in sorted(QSEARCH)]
         assert seq.data == case['d'], 'a query changed the sequence'
         return out
+    if op == 'strq':
+        seq = _raw(BioSeq, case['d'])
+        qs = [_try(lambda: _query_seq(seq, q)) for q in case['qs']]
+        assert seq.data == case['d'], 'a query changed the sequence'
+        es = []
+        for e in case['es']:
+            seq = _raw(BioSeq, case['d'])
+            seq.id = 'x'
+            try:
+                _apply_edit(seq, e)
+                es.append(_seq(seq))
+            except ERRS as x:
+                assert seq.data == case['d']
+                es.append(_exc(x))
+        return [qs, es]
     if op == 'len':
         seq = _mkseq(case)
         for bad in (1.5, None, (0, 1), [0], b'0'):             # type confusion: same TypeError as str indexing
@@ -685,28 +716,56 @@ def _degap(s, gap):
     return ''.join(ch for ch in s if ch not in gap)
 
 
+def _asis_gap_slice(res, gap, ix):
+    """What sl(gap=...)[a:b:c] does for a step other than 1 (the property is silent there; C04_gap_any_step_as_is):
+    start and stop are residue numbers and are replaced by the COLUMN of that residue (the end of the string from the
+    number of residues on, negative numbers count from the last residue and stop at the first), the step counts columns."""
+    cols = [i for i, ch in enumerate(res) if ch not in gap]
+    n = len(cols)
+
+    def col(i):
+        if i is None:
+            return None
+        if i < 0:
+            i = max(i + n, 0)
+        return cols[i] if i < n else len(res)
+    return res[slice(col(ix['a']), col(ix['b']), ix['c'])]
+
+
 def _expect_get(res, gap, ix):
-    """What Python's str gives: returns (kind, value); kind 'exact' or 'degap'."""
+    """What Python's str gives: returns (kind, value); kind 'exact', 'degap' (contiguous gap-aware) or 'asis'."""
     pix = py_ix(ix)
     if gap is None:
         return 'exact', _try(lambda: res[pix])
     dg = _degap(res, gap)
     if isinstance(ix, dict):
+        if ix['c'] not in (None, 1):
+            return 'asis', _try(lambda: _asis_gap_slice(res, gap, ix))
         return 'degap', _try(lambda: dg[pix])
     return 'exact', _try(lambda: dg[pix])
 
 
 def _cmp_get(res, gap, ix, got):
+    """res: the residues the sequence holds (may contain lower case when written behind the constructor's back);
+    every subscript result goes through the constructor, i.e. is upper-cased."""
     kind, exp = _expect_get(res, gap, ix)
     if isinstance(exp, dict) or isinstance(got, dict):
         return None if exp == got else 'index %r: expected %r got %r' % (ix, exp, got)
-    if kind == 'exact':
-        return None if got == exp else 'index %r: str gives %r, BioSeq gives %r' % (ix, exp, got)
-    if _degap(got, gap) != exp:
-        return 'gap-aware %r: residues %r expected %r' % (ix, _degap(got, gap), exp)
-    if got not in res:
-        return 'gap-aware %r: %r is not a contiguous part of %r' % (ix, got, res)
-    return None
+    if kind in ('exact', 'asis'):
+        return None if got == exp.upper() else 'index %r of %r (gap %r): str gives %r (upper-cased by the constructor), BioSeq gives %r' % (ix, res, gap, exp.upper(), got)
+    if res == res.upper():
+        if _degap(got, gap) != exp:
+            return 'gap-aware %r: residues %r expected %r' % (ix, _degap(got, gap), exp)
+        if got not in res:
+            return 'gap-aware %r: %r is not a contiguous part of %r' % (ix, got, res)
+        return None
+    # lower case in the sequence: some contiguous part with exactly the residues of the degapped slice, upper-cased
+    n = len(res)
+    for lo in range(n + 1):
+        for hi in range(lo, n + 1):
+            if hi - lo == len(got) and res[lo:hi].upper() == got and _degap(res[lo:hi], gap) == exp:
+                return None
+    return 'gap-aware %r of %r: %r is not the upper-cased contiguous part holding the residues %r' % (ix, res, got, exp)
 
 
 def _set_expect(res, ix, v):
@@ -748,6 +807,19 @@ def spec(case, got):
                     exp = _try(lambda: getattr(d, name)(case['t'], a, b))
                     if g != exp:
                         return '%r.%s(%r, %r, %r): str gives %r, BioSeq.str gives %r' % (d, name, case['t'], a, b, exp, g)
+        return None
+    if op == 'strq':
+        if isinstance(got, dict):
+            return 'raised %s' % got['e']
+        d = case['d']
+        for q, g in zip(case['qs'], got[0]):
+            exp = _try(lambda: _query_str(d, q))
+            if g != exp:
+                return '%r: %s: str gives %r, BioSeq.str gives %r' % (d, json.dumps(q), exp, g)
+        for e, g in zip(case['es'], got[1]):
+            exp = _try(lambda: [_edit_str(d, e), 'x'])
+            if g != exp:
+                return '%r: %s: str gives %r, BioSeq.str leaves %r' % (d, json.dumps(e), exp, g)
         return None
     if op in ('len', 'eq', 'eqseq', 'add', 'radd', 'iadd', 'set', 'gc') and isinstance(got, dict) and op != 'set':
         return 'raised %s' % got['e']
@@ -1071,7 +1143,13 @@ def _edit_call(e):
         return k, (e['w'],) + (() if e['f'] is None else (e['f'],))
     if k in ('strip', 'lstrip', 'rstrip'):
         return k, () if e['cs'] is None and e.get('omit') else (e['cs'],)
+    if k in ('removeprefix', 'removesuffix'):
+        return k, (e['p'],)
     return None
+
+
+def _mk_args(e):
+    return (e['x'], e['y']) + (() if e['z'] is None else (e['z'],))
 
 
 def _apply_edit(seq, e):
@@ -1087,6 +1165,10 @@ def _apply_edit(seq, e):
         seq.data = e['d']
     elif k == 'reverse':
         assert seq.reverse() is seq, 'reverse() must return the sequence itself'
+    elif k == 'transmk':
+        table = seq.str.maketrans(*_mk_args(e))              # the namespace's own (static) maketrans
+        assert isinstance(table, dict), '.str.maketrans must give the table str.maketrans gives'
+        assert seq.str.translate(table) is seq, '.str.translate must return the sequence it was called on'
     else:
         name, args = _edit_call(e)
         assert getattr(seq.str, name)(*args) is seq, '.str.%s must return the sequence it was called on' % name
@@ -1105,8 +1187,32 @@ def _edit_str(cur, e):
         return e['d']
     if k == 'reverse':
         return cur[::-1]
+    if k == 'transmk':
+        return cur.translate(str.maketrans(*_mk_args(e)))
     name, args = _edit_call(e)
     return getattr(cur, name)(*args)
+
+
+def _split_args(q):
+    if q['q'] == 'splitlines':
+        return () if q['keep'] is None else (q['keep'],)
+    if q.get('kw'):
+        return ()
+    return () if q['sep'] is None and q['ms'] is None else (q['sep'],) if q['ms'] is None else (q['sep'], q['ms'])
+
+
+def _split_kw(q):
+    if q['q'] != 'splitlines' and q.get('kw'):
+        kw = {}
+        if q['sep'] is not None or q['kw'] == 'both':
+            kw['sep'] = q['sep']
+        if q['ms'] is not None:
+            kw['maxsplit'] = q['ms']
+        return kw
+    return {}
+
+
+ENC_FORMS = [[], [None], ['utf-8'], ['ascii'], ['latin-1'], [None, None], ['utf-8', 'strict'], ['ascii', None]]
 
 
 def _gc_pair(cur):
@@ -1123,8 +1229,20 @@ def _query_seq(seq, q):
         return r
     if k in QSEARCH:
         return getattr(seq.str, k)(q['t'], *_bounds(q))
-    if k in ('isupper', 'islower'):
-        return getattr(seq.str, k)()
+    if k in ('isupper', 'islower', 'isalpha', 'isascii'):
+        r = getattr(seq.str, k)()
+        assert isinstance(r, bool)
+        return r
+    if k in ('split', 'rsplit', 'splitlines'):
+        r = getattr(seq.str, k)(*_split_args(q), **_split_kw(q))
+        assert isinstance(r, list) and all(type(x) is str for x in r), '.str.%s must give a list of str' % k
+        return r
+    if k == 'encode':
+        r = seq.str.encode(*ENC_FORMS[q['form']])
+        assert type(r) is bytes
+        return r.decode('latin-1')
+    if k in ('startswithany', 'endswithany'):
+        return getattr(seq.str, k[:-3])(tuple(q['ps']), *_bounds(q))
     if k == 'gc':
         pair = _gc_pair(seq.data)
         g = seq.gc
@@ -1143,8 +1261,14 @@ def _query_str(cur, q):
         return cur == q['t']
     if k in QSEARCH:
         return getattr(cur, k)(q['t'], *_bounds(q))
-    if k in ('isupper', 'islower'):
+    if k in ('isupper', 'islower', 'isalpha', 'isascii'):
         return getattr(cur, k)()
+    if k in ('split', 'rsplit', 'splitlines'):
+        return getattr(cur, k)(*_split_args(q), **_split_kw(q))
+    if k == 'encode':
+        return cur.encode(*[a for a in ENC_FORMS[q['form']] if a is not None][:1]).decode('latin-1')
+    if k in ('startswithany', 'endswithany'):
+        return getattr(cur, k[:-3])(tuple(q['ps']), *_bounds(q))
     if k == 'gc':
         return _gc_pair(cur)
     if k == 'countall':
@@ -1239,7 +1363,7 @@ def _run_store(case):
         obs = None
         notes = []
         try:
-            if k in ('dup', 'edit', 'query', 'eqobj') and not 0 <= h['o'] < len(objs):
+            if k in ('dup', 'edit', 'query', 'eqobj', 'slice', 'slicein') and not 0 <= h['o'] < len(objs):
                 raise IndexError('no such object')
             if k == 'dup':
                 src = objs[h['o']]
@@ -1266,10 +1390,30 @@ def _run_store(case):
                     seqs[:, py_ix(e['ix'])] = e['v']
                 elif e['e'] == 'reverse':
                     assert seqs.reverse() is seqs
+                elif e['e'] == 'transmk':
+                    tabs = seqs.str.maketrans(*_mk_args(e))     # one table per sequence (none for an empty basket)
+                    assert isinstance(tabs, list) and len(tabs) == len(objs) and all(t == tabs[0] for t in tabs)
+                    if tabs:
+                        r = seqs.str.translate(tabs[0])
+                        assert r is seqs or (isinstance(r, list) and all(x is y for x, y in zip(r, objs)))
                 else:
                     name, args = _edit_call(e)
                     r = getattr(seqs.str, name)(*args)
                     assert r is seqs or (isinstance(r, list) and all(x is y for x, y in zip(r, objs)))
+            elif k in ('slice', 'slicein'):
+                src = objs[h['o']]
+                before = [x.data for x in objs]
+                kw = {} if h['gap'] is None else {'gap': h['gap']}
+                if k == 'slicein':
+                    r = src.sl(inplace=True, **kw)[py_ix(h['ix'])]
+                else:
+                    r = (src.sl(**kw) if kw or h.get('sl') else src)[py_ix(h['ix'])]
+                if not isinstance(r, BioSeq) or any(r is x for x in objs):
+                    notes.append('a subscript must give a new BioSeq')
+                if k == 'slice' and [x.data for x in objs] != before:
+                    notes.append('a subscript without inplace=True changed a sequence')
+                obs = _seq(r)
+                objs.append(r)
             elif k == 'countall':
                 bk = BioBasket(objs)
                 obs = _count_obs(bk)
@@ -1306,8 +1450,22 @@ def _spec_store(case, got):
         obs, state, extra = g
         where = 'step %d (%s): ' % (n, json.dumps(h))
         exp = None
-        if k in ('dup', 'edit', 'query', 'eqobj') and not 0 <= h['o'] < len(cur) or k == 'eqobj' and not 0 <= h['j'] < len(cur):
+        if k in ('dup', 'edit', 'query', 'eqobj', 'slice', 'slicein') and not 0 <= h['o'] < len(cur) or k == 'eqobj' and not 0 <= h['j'] < len(cur):
             exp = {'e': 'IndexError'}
+        elif k in ('slice', 'slicein'):
+            # the subscript of the object's OWN residue string (lower case included), upper-cased by the constructor
+            src = cur[h['o']]
+            if isinstance(obs, list) and obs[1] != ids[h['o']]:
+                return where + 'the id of the source is lost'
+            m = _cmp_get(src, h['gap'], h['ix'], obs if isinstance(obs, dict) else obs[0])
+            if m:
+                return where + m
+            exp = obs
+            if not isinstance(obs, dict):
+                if k == 'slicein':
+                    cur = cur[:h['o']] + [obs[0]] + cur[h['o'] + 1:]
+                cur = cur + [obs[0]]
+                ids = ids + [ids[h['o']]]
         elif k == 'dup':
             cur = cur + [cur[h['o']]]
             ids = ids + [ids[h['o']]]
@@ -1449,8 +1607,8 @@ def nontrivial(case, got):
         marks |= set('dup:' + h['how'] for h in case['steps'] if h['k'] == 'dup')
     elif op == 'ft':
         marks.add('ft')
-    elif op == 'strbox':
-        marks.add('strbox')
+    elif op in ('strbox', 'strq'):
+        marks.add(op)
     elif op == 'eqval':
         marks.add('eq:' + case['o']['t'])
     elif op in ('set',):
@@ -1520,6 +1678,8 @@ def _plain(case):
             (case['s'], case['t']) if op != 'radd' else (case['t'], case['s']))
     if op == 'store':
         return _plain_store(case)
+    if op == 'strq':
+        return 's = BioSeq("", id="x"); s.data = %r; then each of the queries / edits of the case through s.str' % case['d']
     if op in ('ft', 'bft'):
         tgt = 'BioSeq(%r, id="x")' % case['s'] if op == 'ft' else 'BioBasket([BioSeq(d) for d in %r])' % (case['b'],)
         return 'x = %s; x.fts = [Feature(t, start=a, stop=b) for t, a, b in %r]; x%s[%s%r]' % (
@@ -1554,6 +1714,8 @@ def _plain_store(case):
                 out.append('%s.data = %r' % (tgt, e['d']))
             elif e['e'] == 'reverse':
                 out.append('%s.reverse()' % tgt)
+            elif e['e'] == 'transmk':
+                out.append('%s.str.translate(str.maketrans(%s))' % (tgt, ', '.join(repr(a) for a in _mk_args(e))))
             else:
                 name, args = _edit_call(e)
                 out.append('%s.str.%s(%s)' % (tgt, name, ', '.join(repr(a) for a in args)))
@@ -1563,14 +1725,23 @@ def _plain_store(case):
                 out.append('o[%d].str.%s(%s)' % (h['o'], q['q'], ', '.join(repr(a) for a in (q['t'],) + _bounds(q))))
             elif q['q'] == 'eq':
                 out.append('o[%d] == %r' % (h['o'], q['t']))
-            elif q['q'] in ('isupper', 'islower'):
+            elif q['q'] in ('isupper', 'islower', 'isalpha', 'isascii'):
                 out.append('o[%d].str.%s()' % (h['o'], q['q']))
+            elif q['q'] in ('split', 'rsplit', 'splitlines'):
+                out.append('o[%d].str.%s(*%r, **%r)' % (h['o'], q['q'], _split_args(q), _split_kw(q)))
+            elif q['q'] == 'encode':
+                out.append('o[%d].str.encode(*%r)' % (h['o'], ENC_FORMS[q['form']]))
+            elif q['q'] in ('startswithany', 'endswithany'):
+                out.append('o[%d].str.%s(%r, *%r)' % (h['o'], q['q'][:-3], tuple(q['ps']), _bounds(q)))
             else:
                 out.append({'len': 'len(o[%d])', 'gc': 'o[%d].gc', 'countall': 'o[%d].countall()'}[q['q']] % h['o'])
         elif k == 'eqobj':
             out.append('o[%d] == o[%d]' % (h['o'], h['j']))
         elif k == 'countall':
             out.append('BioBasket(o).countall()')
+        elif k in ('slice', 'slicein'):
+            kw = ', '.join((['inplace=True'] if k == 'slicein' else []) + ([] if h['gap'] is None else ['gap=%r' % h['gap']]))
+            out.append('o.append(o[%d]%s[%s])' % (h['o'], '.sl(%s)' % kw if kw else '', _ixs(h['ix'])))
     return '; '.join(out)
 
 
@@ -1735,6 +1906,13 @@ def gen_cases(rng, tier):
     pairs = [(d, t) for d in small for t in subs]
     for d, t in (pairs if thorough else rng.sample(pairs, 40)):
         cases.append(_box_strcalls(d, t))
+    # --- round 7: split / rsplit / splitlines / removeprefix / removesuffix / isalpha / isascii / encode / maketrans+translate
+    for _ in range(160 * (12 if thorough else 1)):
+        cases.append(_gen_strq(rng))
+    small7 = [''.join(t) for n in range(0, 5) for t in itertools.product('A- \n', repeat=n)]
+    for d in (small7 if thorough else rng.sample(small7, 40)):
+        cases.append(_box_strq(d))
+    cases += _directed_slices()
     # --- seq['feature type'] with types that contain one another
     cases += _directed_ft()
     for _ in range(140 * (10 if thorough else 1)):
@@ -1810,9 +1988,9 @@ def _rhstep(rng, n):
     r = rng.random()
     gap = rng.choice(['-', '-', '-.', None])
     if r < 0.30:
-        return {'k': 'get', 'gap': gap, 'ix': _rix(rng, n, contiguous=gap is not None)}
+        return {'k': 'get', 'gap': gap, 'ix': _rix(rng, n, contiguous=gap is not None and rng.random() < 0.6)}
     if r < 0.35:
-        return {'k': 'getin', 'gap': gap, 'ix': _rix(rng, n, contiguous=gap is not None)}
+        return {'k': 'getin', 'gap': gap, 'ix': _rix(rng, n, contiguous=gap is not None and rng.random() < 0.6)}
     if r < 0.6:
         return _same_len_edit(rng, n)
     if r < 0.68:
@@ -1933,7 +2111,79 @@ def _redit(rng, n):
     if r < 0.88:
         return {'e': rng.choice(['center', 'ljust', 'rjust']), 'w': rng.choice([0, n, n + 1, n + 2, n + 3, n + 4, n - 1, -2]),
                 'f': rng.choice([None, 'n', 'n', 'a', '-', 'N', ' '])}
-    return {'e': rng.choice(['strip', 'lstrip', 'rstrip']), 'cs': rng.choice([None, 'a', 'A', 'Aa', 'n-', 'acgt', '', ' n'])}
+    if r < 0.94:
+        return {'e': rng.choice(['strip', 'lstrip', 'rstrip']), 'cs': rng.choice([None, 'a', 'A', 'Aa', 'n-', 'acgt', '', ' n'])}
+    return _redit7(rng)
+
+
+def _redit7(rng, d=None):
+    """round 7: removeprefix / removesuffix / translate(maketrans(x, y[, z]))"""
+    r = rng.random()
+    if r < 0.6:
+        k = rng.choice(['removeprefix', 'removesuffix'])
+        p = rng.choice(['A', 'a', 'AC', 'ac', 'GT', 't', '-', '', 'n', 'TTT', ' '])
+        if d and rng.random() < 0.6:
+            n = rng.choice([1, 1, 2, 3, len(d), len(d) + 1])
+            p = d[:n] if k == 'removeprefix' else d[-n:]
+            if n > len(d):
+                p = p + 'A' if k == 'removeprefix' else 'A' + p
+            if rng.random() < 0.15:
+                p = p.swapcase()
+        return {'e': k, 'p': p}
+    x = _rs(rng, rng.choice([0, 1, 2, 3, 4]), 'ACGTacgt-A')
+    y = _rs(rng, len(x) if rng.random() < 0.85 else len(x) + rng.choice([-1, 1]) if x else 1, 'ACGTacgtnN- ')
+    z = rng.choice([None, None, '', '-', 'a', 'A-', 'nN', x[:1]])
+    return {'e': 'transmk', 'x': x, 'y': y, 'z': z}
+
+
+WS_ALPHA = ['A', 'a', 'C', '-', ' ', ' ', '\t', '\n', '\r', '\x0b', '\x0c', '\x1c', '\x1d', '\x1e', '\x1f', 'n']
+
+
+def _rquery7(rng, d):
+    """round 7: split / rsplit / splitlines / isalpha / isascii / encode / startswith-endswith with a tuple"""
+    n = len(d)
+    r = rng.random()
+    if r < 0.5:
+        sep = rng.choice([None, None, '-', 'A', 'a', ' ', 'AC', '--', 'AA', '', '\n', 'n'])
+        if d and rng.random() < 0.4:
+            i = rng.randrange(n)
+            sep = d[i:i + rng.choice([1, 1, 2])]
+        ms = rng.choice([None, None, -1, 0, 1, 2, 3, n, -5])
+        return {'q': rng.choice(['split', 'rsplit']), 'sep': sep, 'ms': ms, 'kw': rng.choice([None, None, None, 'kw', 'both'])}
+    if r < 0.65:
+        return {'q': 'splitlines', 'keep': rng.choice([None, False, True, True])}
+    if r < 0.8:
+        return {'q': rng.choice(['isalpha', 'isascii'])}
+    if r < 0.86:
+        return {'q': 'encode', 'form': rng.randrange(len(ENC_FORMS))}
+    ps = [rng.choice(['A', 'a', 'AC', '-', '', 'G', 'gt', d[:2], d[-2:], d[1:3]]) for _ in range(rng.choice([0, 1, 2, 3]))]
+    bd = lambda: rng.choice([None, None, None, 0, 1, -1, 2, n, n + 1, -n, rng.randint(-n - 1, n + 1)])
+    return {'q': rng.choice(['startswithany', 'endswithany']), 'ps': ps, 'a': bd(), 'b': bd()}
+
+
+def _gen_strq(rng):
+    """One raw residue string (white space of every kind, line ends incl. \\r\\n, lower case), a batch of round-7 queries and edits."""
+    shape = rng.random()
+    if shape < 0.45:
+        d = ''.join(rng.choice(WS_ALPHA) for _ in range(rng.choice([0, 1, 2, 3, 5, 8, 12])))
+    elif shape < 0.6:
+        d = ''.join(rng.choice(['A', 'c', '\r\n', '\n', '\r', '\n\r', ' ', '\x1c']) for _ in range(rng.choice([1, 3, 6])))
+    elif shape < 0.8:
+        d = _rs(rng, rng.choice([0, 1, 3, 6, 10]), 'ACGTacgt')
+    else:
+        d = _rs(rng, rng.choice([2, 5, 9]), 'AAa--C ')
+    qs = [_rquery7(rng, d) for _ in range(rng.choice([4, 6, 8]))]
+    es = [_redit7(rng, d) for _ in range(rng.choice([2, 3, 4]))]
+    return {'op': 'strq', 'd': d, 'qs': qs, 'es': es}
+
+
+def _box_strq(d):
+    """Every separator x maxsplit for split / rsplit, both splitlines forms, the predicates, affix removal on one small string."""
+    seps = [None, ' ', '-', 'A', '--', '- ', 'A-', '']
+    qs = [{'q': k, 'sep': sep, 'ms': ms, 'kw': None} for k in ('split', 'rsplit') for sep in seps for ms in (None, 0, 1, 2, 3)]
+    qs += [{'q': 'splitlines', 'keep': False}, {'q': 'splitlines', 'keep': True}, {'q': 'isalpha'}, {'q': 'isascii'}, {'q': 'encode', 'form': 0}]
+    es = [{'e': k, 'p': p} for k in ('removeprefix', 'removesuffix') for p in ('', 'A', '-', ' ', 'A-', '-A', d, d + 'A', 'A' + d)]
+    return {'op': 'strq', 'd': d, 'qs': qs, 'es': es}
 
 
 def _rquery(rng, pool, n):
@@ -1953,7 +2203,9 @@ def _rquery(rng, pool, n):
             t = rng.choice(['', 'g', 'G', 'gt', 'nn', 'Ac'])
         bd = lambda: rng.choice([None, None, None, 0, 1, -1, 2, n, n + 1, n + 3, -n, -n - 2, rng.randint(-n - 1, n + 1)])
         return {'q': rng.choice(sorted(QSEARCH)), 't': t, 'a': bd(), 'b': bd()}
-    return {'q': rng.choice(['isupper', 'islower', 'gc', 'gc', 'countall'])}
+    if r < 0.9:
+        return {'q': rng.choice(['isupper', 'islower', 'gc', 'gc', 'countall'])}
+    return _rquery7(rng, rng.choice(pool))
 
 
 def _gen_store(rng):
@@ -1991,6 +2243,10 @@ def _gen_store(rng):
             steps.append(dup_step())
             nobj += 1
             steps.append(edit_step())
+        if rng.random() < 0.5:
+            steps.append({'k': 'slice', 'o': handle(), 'gap': rng.choice([None, '-', 'n']), 'ix': _rix(rng, n), 'sl': False})
+            nobj += 1
+            steps.append(edit_step())
         steps.append({'k': 'eqobj', 'o': handle(), 'j': handle()})
     else:
         for _ in range(rng.choice([3, 4, 6, 8])):
@@ -1998,8 +2254,14 @@ def _gen_store(rng):
             if r < 0.22 and nobj < 6:
                 steps.append(dup_step())
                 nobj += 1
-            elif r < 0.62:
+            elif r < 0.56:
                 steps.append(edit_step())
+            elif r < 0.66 and nobj < 7:
+                # a subscript of an object that may hold lower case: a NEW object (upper-cased by the constructor) joins the store
+                gap = rng.choice([None, None, '-', '-', 'n', '-n', ''])
+                steps.append({'k': rng.choice(['slice', 'slice', 'slice', 'slicein']), 'o': handle(), 'gap': gap, 'ix': _rix(rng, n),
+                              'sl': rng.random() < 0.3})
+                nobj += 1
             elif r < 0.9:
                 steps.append({'k': 'query', 'o': handle(), 'q': _rquery(rng, pool, n)})
             elif r < 0.96:
@@ -2039,6 +2301,22 @@ def _directed_stores():
             {'k': 'edit', 'o': 3, 'e': {'e': 'iadd', 't': 'acg'}},
             {'k': 'countall'},
             {'k': 'eqobj', 'o': 2, 'j': 3}, {'k': 'eqobj', 'o': 1, 'j': 2}]})
+    return out
+
+
+def _directed_slices():
+    """Slices of sequences that hold lower case (written behind the constructor's back), plain and gap-aware, every step."""
+    out = []
+    for gap in (None, '-', 'n'):
+        steps = [{'k': 'edit', 'o': 0, 'e': {'e': 'set', 'ix': {'a': 1, 'b': 4, 'c': None}, 'v': 'g-n'}},
+                 {'k': 'edit', 'o': 0, 'e': {'e': 'iadd', 't': 'ac-t'}}]
+        for ix in ({'a': 1, 'b': 6, 'c': None}, {'a': None, 'b': None, 'c': -1}, {'a': None, 'b': None, 'c': 2}, {'a': 5, 'b': 0, 'c': -2},
+                   {'a': None, 'b': -100, 'c': -1}, 2, -1, {'a': -3, 'b': None, 'c': None}):
+            steps.append({'k': 'slice', 'o': 0, 'gap': gap, 'ix': ix, 'sl': gap is None})
+        steps += [{'k': 'edit', 'o': 1, 'e': {'e': 'lower'}}, {'k': 'eqobj', 'o': 0, 'j': 1},
+                  {'k': 'slicein', 'o': 0, 'gap': gap, 'ix': {'a': 2, 'b': None, 'c': None}}, {'k': 'query', 'o': 0, 'q': {'q': 'islower'}},
+                  {'k': 'countall'}]
+        out.append({'op': 'store', 'ss': ['ACGTTGCA'], 'steps': steps, 'probes': ['g', 'N'], 'battery': True, 'sweep': False})
     return out
 
 
@@ -2331,7 +2609,7 @@ def _raw(BioSeq, data):
     return s
 
 
-LEVEL_TEXT = ('Machine-checked Coq theorems (55, all closed under the global context), for every list/str and every integer or None bound: '
+LEVEL_TEXT = ('Machine-checked Coq theorems (57, all closed under the global context), for every list/str and every integer or None bound: '
               'CPython slice normalisation (PySlice_AdjustIndices) yields firstn/skipn of the clamped bounds for contiguous slices, the '
               'slice-length formula and the element law r[k] = s[start + k*step] for every step, s[::-1] = rev s, s[:k] + s[k:] = s, the '
               'negative-index law; BioSeq indexing/slicing, len, +, +=, right + equal the str operation on the residue string; == against any '
@@ -2354,27 +2632,33 @@ LEVEL_TEXT = ('Machine-checked Coq theorems (55, all closed under the global con
               'ids follow duplication; store_frame / dup_independent: an object changes only through steps that address it, a duplicate '
               'keeps the value its source had and vice versa; store_countall / store_probabilities; ft_first_exact: seq[type] takes the '
               'FIRST feature whose type EQUALS the name up to ASCII case (hence of the same length, never a proper substring). '
+              'Round 7: slice_through_constructor: EVERY subscript (plain or gap-aware, int or slice, any step) of a sequence that may '
+              'hold lower case is the same subscript of its residue string upper-cased by the constructor, id kept; store_slice and the '
+              'extended store_step / store_history: slicing steps (DSlice: new object appended; DSliceIn: inplace=True) are part of the '
+              'object-store histories (ids follow the source; pair_step folds residues and ids together). '
               'The model is tied to sugar by '
               'differential testing (exhaustive box over {A,C,-}^<=5 x {None,-7..7}^3 in the thorough tier, random cases, 600 multi-step '
               'histories on shared objects and 270 object-store histories with duplicates in the quick tier) and the .str methods are '
               'compared against builtin str.')
 LEVEL_NOTE = ('Trusted: Coq kernel/vm_compute, the correspondence harness, CPython str/list subscripting as modelled in C04_PySlice.v '
-              '(compared on every case), the str methods themselves: 17 of them (count, find, rfind, index, rindex, startswith, endswith, '
-              'replace, lower, upper, swapcase, isupper, islower, strip, lstrip, rstrip, center, ljust, rjust, translate with a '
-              'character table) are now modelled as list functions on ASCII and compared with CPython on every case incl. start/end '
-              'boxes; for the others (split, rsplit, splitlines, encode, isalpha, isascii, removeprefix, removesuffix, maketrans) only '
-              'the wrapping is proved (behaviour compared Python-against-Python with directed and random arguments, return identity '
-              'tested). Tested only: object identity (is seq / is basket), that copy.copy / deepcopy / pickle / copy() really produce '
+              '(compared on every case), the str methods themselves: ALL methods the namespace exposes (count, find, rfind, index, rindex, '
+              'startswith, endswith (str or tuple), replace, lower, upper, swapcase, isupper, islower, isalpha, isascii, strip, lstrip, '
+              'rstrip, center, ljust, rjust, removeprefix, removesuffix, split / rsplit (white-space runs or separator, maxsplit), '
+              'splitlines(keepends), encode (utf-8/ascii/latin-1 on ASCII), translate with a character table or with '
+              'maketrans(x, y[, z]) incl. deletion and duplicate keys) are modelled as list functions on ASCII and compared with CPython '
+              'on every case incl. start/end boxes and separator x maxsplit boxes; the parametric wrapper theorem still covers any '
+              'other method (behaviour compared Python-against-Python with directed and random arguments, return identity tested). Tested only: object identity (is seq / is basket), that copy.copy / deepcopy / pickle / copy() really produce '
               'independent Python objects (the model duplicates VALUES; the object-store stream compares every object after every step '
               'and asks a battery of ~25 queries per object), '
               'absence of aliasing/state between calls (history streams), floats of gc/prob (driver recomputes the one IEEE division), '
               'countall(rtype="df"), the kind of result of basket-level .str methods (basket / list: both allowed by the property; '
               'required to be independent of the number of sequences incl. zero, and chainable). Modelled rather than verified: the '
               'seq.py functions in MODELLED_FUNCS; str restricted to ASCII; metadata reduced to the id; features reduced to (type, start, '
-              'stop) of one forward location (strands, several locations: C06). Domain restrictions: gap-aware slicing only contiguous; '
-              'seq + x only for x without lower case (the constructor upper-cases, += does not); indexing/slicing claimed for residues '
-              'without lower case (the slice goes through the constructor), which is why the object-store stream (lower case allowed) '
-              'has no slicing step; GC content counts upper-case G/C/A/T/U only (that is what str.count gives). '
+              'stop) of one forward location (strands, several locations: C06). Domain restrictions: the PROPERTY claim for gap-aware slicing is contiguous '
+              'slices only; gap-aware slices with other steps are inside the correspondence as the code is (columns between the '
+              'adjusted bounds), not claimed to equal the degapped slice; '
+              'seq + x only for x without lower case (the constructor upper-cases, += does not); slices of sequences holding lower '
+              'case come back upper-cased (stated, and part of the object-store stream); GC content counts upper-case G/C/A/T/U only (that is what str.count gives). '
               'Lines of modelled functions not reached because they belong to other properties: seq.py:227 (mapping '
               'constructor, C14), 464 (indexing with a Location object, C06), 488-495 (update_fts, C06).')
 TECHNIQUE = 'Coq proof over an executable Gallina model + differential correspondence (exhaustive small box, random) + Python-vs-str relational checks'
